@@ -51,8 +51,12 @@ ENTRIES = [
 BOUNDARY = ("poly1305::", "blake2b::", "argon2::", "siphash24::", "utils::", "scalarmult_curve25519::",
             "classic::crypto_core::", "classic::crypto_generichash::", "classic::generichash_blake2b::",
             "classic::crypto_hash::", "sha512::", "rng::", "error::", "classic::crypto_shorthash::",
-            "classic::crypto_auth::crypto_auth_hmacsha512256", "classic::crypto_onetimeauth::crypto_onetimeauth_poly1305",
-            "protected::Protected<", "protected::dryoc_", "protected::PageAlignedAllocator")
+            "protected::Protected<", "protected::PageAlignedAllocator")
+# Besides the primitive modules above, the boundary contains (by role, not by name):
+#  * the MAC cores: the non-public functions of the files that hold the public crypto_auth /
+#    crypto_onetimeauth API (fixed-size key and tag; the message is only hashed);
+#  * protected.rs's non-public free functions (OS wrappers, page arithmetic).
+BOUNDARY_PRIVATE_FILES = ("src/classic/crypto_auth.rs", "src/classic/crypto_onetimeauth.rs")
 
 # declared buffer contracts of the classic API: output/key buffers sized as documented
 CONTRACTS = {
@@ -79,7 +83,13 @@ def get(prog, a):
 
 def in_boundary(f):
     p = f.path.lstrip("<")
-    return any(p.startswith(b) or ("as %s" % b) in f.path for b in BOUNDARY)
+    if any(p.startswith(b) or ("as %s" % b) in f.path for b in BOUNDARY):
+        return True
+    if f.vis != "pub" and f.kind != "closure" and f.file in BOUNDARY_PRIVATE_FILES:
+        return True
+    if f.vis != "pub" and f.kind == "fn" and f.file == "src/protected.rs" and p.startswith("protected::") and p.count("::") == 1:
+        return True
+    return False
 
 
 LEN_SETTERS = ("std::vec::Vec::<T, A>::resize", "types::ResizableBytes::resize")
@@ -828,7 +838,22 @@ def check(ctx, rep, prog, tag):
         if fn.key not in scope:
             scope[fn.key] = chain
     prog.reach_ctx(entries, visit, stop=lambda f: in_boundary(f) and f not in entries)
-    fns = [prog.by_key[k] for k in scope if not in_boundary(prog.by_key[k]) or prog.by_key[k] in entries]
+    # every function in scope is analysed as a view in which closures of std combinators and callable
+    # values are folded in, so a guard written as `(len >= N).then(..).ok_or_else(..)?` protects the code
+    # that follows it exactly like an inline `if`
+    views = {}
+
+    def view(g):
+        if g.key not in views:
+            # (named helpers are not folded in here: the length engine handles them through lifted
+            # preconditions and Ok-summaries, which keeps the primitive boundary intact)
+            views[g.key] = inline(prog, g, pick=lambda call, t: False) if g.kind != "closure" else g
+        return views[g.key]
+    entries = [view(e) for e in entries]
+    fns = [view(prog.by_key[k]) for k in scope if not in_boundary(prog.by_key[k]) or k in {e.key for e in entries}]
+    # closure bodies that were folded into their parent's view are analysed there, in context
+    folded = {p_ for v_ in fns for p_ in getattr(v_, "inlined", [])}
+    fns = [g for g in fns if not (g.kind == "closure" and g.path in folded)]
     import os
     debug = os.environ.get("C04_DEBUG")
     # boundary functions called directly from in-scope code: their division/remainder sites (divisor built
@@ -886,7 +911,7 @@ def check(ctx, rep, prog, tag):
     rep.floor("panic-capable sites in scope" + tag, n_sites, 100)
     rep.floor("entry points" + tag, len(entries), 40)
     rep.extra["scope_functions"] = len(fns)
-    rep.extra["boundary"] = list(BOUNDARY)
+    rep.extra["boundary"] = list(BOUNDARY) + ["non-public fns of %s" % x for x in BOUNDARY_PRIVATE_FILES] + ["non-public free fns of src/protected.rs"]
     rep.extra["stats"] = D.stats
     rep.note("typed-parameter contract: %d unresolved ByteArray/MutByteArray calls on generic container parameters are not lifted (documented panics of the convenience impls for Vec/[u8])" % D.stats["typed_param_calls"])
     for k, txts in CONTRACTS.items():
